@@ -10,7 +10,7 @@ def observe_pair(cls, a, b):
     """what the real keywords answer for the pair (a, b)"""
     c = [cls[d]({"const": a}).is_valid(b) for d in (6, 7)]
     # (a longer enum of scalars next to `a`: b matches it exactly when it equals a -- the pads occur nowhere else)
-    e = [cls[d]({"enum": [a]}).is_valid(b) for d in DRAFTS] + [cls[d]({"enum": [a, "pad-1", "pad-2", "pad-3"]}).is_valid(b) for d in DRAFTS]
+    e = [cls[d]({"enum": [a]}).is_valid(b) for d in DRAFTS] + [cls[d]({"enum": [a, "pad-1", "pad-2", "pad-3", "pad-4", "pad-5", "pad-6", "pad-7", "pad-8"]}).is_valid(b) for d in DRAFTS]
     u = [cls[d]({"uniqueItems": True}).is_valid([a, b]) for d in DRAFTS]
     return c, e, u
 
